@@ -267,6 +267,84 @@ class SameDocHistories(Space):
         return Outcome(viol=viol, tags=tags, obs=hash(tuple(res["outs"])), states=set(res["fps"]), transitions=len(seq), traces=1)
 
 
+# ---- pumped histories: many calls before the observed one (anything that runs out, fills up or wraps around: a shared iterator,
+# a bounded cache, a counter) -- P^k ; O for every pump document P, every k and every observer O
+def _pump_doc(i):
+    cell = ['say "q%d" wait...ok {%% t a="x...y" %%} [l%d](http://u.v/%d) `c%d` it\'s' % (j, j, j, j) for j in range(40)]
+    if i == 0:
+        return "\n\n".join(cell) + "\n"
+    if i == 1:
+        return "| a | b |\n|---|---|\n" + "\n".join("| %s | {{ v...w }} \"z\" |" % c for c in cell) + "\n"
+    return "\n".join("- %s\n\n  > quoted... \"q\" [r%d]\n\n[r%d]: http://u.v/r%d" % (c, j, j, j) for j, c in enumerate(cell)) + "\n"
+
+
+PUMP_OPTS = dict(width=40, semantic=True, cleanups=True, smartquotes=True, ellipses=True)
+PUMP_K = (1, 8, 64)
+OBSERVERS = [
+    ('Wait... {% field label="To be continued... maybe" %} and "quotes" it\'s {{ a...b }} <!-- c...d -->\n', PUMP_OPTS),
+    ("[a] and x[^1] are undefined here, [r3] too... \"q\"\n", PUMP_OPTS),
+    ("- loose\n\n- list starts the document\n\n| 1\\. | x |\n|---|---|\n| `c d` | [l k](u) |\n", dict(width=20, semantic=False, cleanups=False)),
+    ("plain words that wrap around at the width of forty columns, - with a marker and 1. another one here\n", dict(width=40, semantic=False, cleanups=False)),
+]
+_BASE3 = None
+
+
+def baselines3():
+    global _BASE3
+    if _BASE3 is None:
+        _BASE3 = [in_fresh_process(lambda t=t, o=o: {"out": reformat_text(t, **o)}) for t, o in OBSERVERS]
+    return _BASE3
+
+
+class PumpedHistories(Space):
+    prop = "C13"
+    name = "histories-pumped"
+
+    def __init__(self, tier):
+        self.ks = PUMP_K if tier == "quick" else PUMP_K + (256,)
+        self.floors = {"calls-before-observer>=64": 8}
+        self.base = baselines3()
+
+    def cases(self):
+        for p in range(3):
+            for k in self.ks:
+                for o in range(len(OBSERVERS)):
+                    yield (p, k, o)
+
+    def describe(self, case):
+        p, k, o = case
+        return {"pump_document": _pump_doc(p)[:300] + " ...", "pump_options": PUMP_OPTS, "repetitions": k, "then": {"doc": OBSERVERS[o][0], "options": OBSERVERS[o][1]}}
+
+    def smaller(self, case):
+        p, k, o = case
+        i = self.ks.index(k) if k in self.ks else 0
+        if i:
+            yield (p, self.ks[i - 1], o)
+
+    def evaluate(self, case):
+        p, k, o = case
+
+        def run():
+            doc = _pump_doc(p)
+            first = reformat_text(doc, **PUMP_OPTS)
+            last = first
+            for _ in range(k - 1):
+                last = reformat_text(doc, **PUMP_OPTS)
+            return {"pump_stable": first == last, "out": reformat_text(OBSERVERS[o][0], **OBSERVERS[o][1]), "fp": fingerprint()}
+
+        if _WARM:
+            raise RuntimeError("HARNESS ERROR: history case evaluated in a process that already called flowmark")
+        res = in_fresh_process(run)
+        if "error" in res:
+            return Outcome(viol=[("history:exception", res)])
+        viol = []
+        if not res["pump_stable"]:
+            viol.append(("history:repeated-call-changes-output", {"pump": case[0], "repetitions": k}))
+        if res["out"] != self.base[o]["out"]:
+            viol.append(("history:output-depends-on-earlier-calls", {"after": res["out"], "alone": self.base[o]["out"], "repetitions": k}))
+        return Outcome(viol=viol, tags=["calls-before-observer>=64"] if k >= 64 else [], obs=hash(res["out"]), states={res["fp"]}, transitions=k + 1, traces=1)
+
+
 PAIRS = [
     (("[a] one\n\n[a]: http://one\n", dict(width=10, semantic=False, cleanups=False)), ("- x\n\n[a] two\n\n[a]: http://two\n", dict(width=10, semantic=False, cleanups=False))),
     (("`code span` [link text](u) {% tag a=\"b c\" %} words <b>html</b> to wrap\n", dict(width=12, semantic=False, cleanups=False)),
@@ -384,7 +462,7 @@ class Schedules(Space):
 
 
 def spaces(tier):
-    return [Histories(tier), SameDocHistories(tier), Schedules(tier)]
+    return [Histories(tier), SameDocHistories(tier), PumpedHistories(tier), Schedules(tier)]
 
 
 def extra(reports, tier):
